@@ -1186,3 +1186,101 @@ def gen_codec():
     body += vocabulary_doc(CODEC_GET_RULES) + " *)\n\n"
     body += CODEC_PRELUDE + "\n" + d_add + "\n\n" + d_addf + "\n\n" + d_get + "\n"
     return body
+
+
+# ============================================================================= T7  dds/store.py : MemoryStore
+
+MEM_PRELUDE = """(* self._cache : Dict[PyHash, Any] is the association list b, self._paths : Dict[DDSPath, PyHash] the association list ps
+   (Store.v: alookup / aupdate; a Python dict keeps the position of a key that is assigned again, as aupdate does).
+   A stored value is a blob of Store.v; the Python value None is BNone. *)
+Definition dict_has {A : Type} (k : bytes) (d : list (bytes * A)) : bool := is_some (alookup k d).
+Definition dict_get_blob (k : key) (d : list (key * blob)) : blob := match alookup k d with Some v => v | None => BNone end.
+Definition upd_pair (acc : list (dpath * key)) (pk : dpath * key) : list (dpath * key) := aupdate (fst pk) (snd pk) acc.
+(* [(p, D[p]) for p in l] - a KeyError is not modelled: MemoryStore.fetch_paths raises before, when a path is missing *)
+Definition lookup_pairs (l : list dpath) (d : list (dpath * key)) : list (dpath * key) :=
+  flat_map (fun p => match alookup p d with Some k => [(p, k)] | None => [] end) l.
+(* OrderedDict(list of pairs) *)
+Definition od_of_pairs (l : list (dpath * key)) : list (dpath * key) := fold_left upd_pair l [].
+"""
+
+MEM_RULES = [
+    Rule("__K in self._cache", "dict_has {K} b", "bool", {"K": "key"}),
+    Rule("self._cache.get(__K)", "dict_get_blob {K} b", "blob", {"K": "key"}, doc="None (absent) is the value None"),
+    Rule("self._cache[__K] = __V", "aupdate {K} {V} b", "unit", {"K": "key", "V": "blob"}, kind="update", state="b"),
+    Rule("for (p, k) in __P.items():\n    self._paths[p] = k", "fold_left upd_pair {P} ps", "unit", {"P": "pathmap"}, kind="update", state="ps",
+         doc="after the log-only statements of the loop body have been removed (strip_logs)"),
+    Rule("__P not in self._paths", "negb (dict_has {P} ps)", "bool", {"P": "dpath"}),
+    Rule("OrderedDict([(p, self._paths[p]) for p in __L])", "od_of_pairs (lookup_pairs {L} ps)", "pathmap", {"L": lst("dpath")}),
+    Rule("_logger.warning(__M)", kind="noop", doc="logging"),
+    LOGGING,
+]
+MEM_TYPES = {"key": "key", "blob": "blob", "dpath": "dpath", "pathmap": "list (dpath * key)", "pathlist": "list dpath"}
+MEM_METHODS = [
+    ("has_blob", ["key"], "bool", "RBool {v}", "OHas k", "k"),
+    ("fetch_blob", ["key"], "blob", "RBlob {v}", "OFetch k", "k"),
+    ("store_blob", ["key", "blob", None], "unit", "RUnit", "OPut k v", "k v"),
+    ("sync_paths", ["pathmap"], "unit", "RUnit", "OSync ps0", "ps0"),
+    ("fetch_paths", [lst("dpath")], "pathmap", "RPaths {v}", "OFetchPaths l", "l"),
+]
+
+
+def _is_log_call(st):
+    if not (isinstance(st, ast.Expr) and isinstance(st.value, ast.Call)):
+        return False
+    f = st.value.func
+    if not (isinstance(f, ast.Attribute) and isinstance(f.value, ast.Name) and f.value.id == "_logger"
+            and f.attr in ("debug", "info", "warning")):
+        return False
+    for a in list(st.value.args) + [kw.value for kw in st.value.keywords]:
+        log_safe(a)
+    return True
+
+
+def _pure_membership(t):
+    """`x in self.attr` / `x not in self.attr` with x a name: a test without effect."""
+    return (isinstance(t, ast.Compare) and len(t.ops) == 1 and isinstance(t.ops[0], (ast.In, ast.NotIn)) and isinstance(t.left, ast.Name)
+            and isinstance(t.comparators[0], ast.Attribute) and isinstance(t.comparators[0].value, ast.Name) and t.comparators[0].value.id == "self")
+
+
+def strip_logs(stmts):
+    """Removes the statements that only log: `_logger.debug/info/warning(<log-safe arguments>)`, and an `if` on a pure membership
+    test whose two branches are empty after that.  Everything else is kept as it is."""
+    out = []
+    for st in stmts:
+        if _is_log_call(st):
+            continue
+        if isinstance(st, ast.If) and _pure_membership(st.test):
+            body, orelse = strip_logs(st.body), strip_logs(st.orelse)
+            if not body and not orelse:
+                continue
+        if isinstance(st, ast.For):
+            st = ast.For(target=st.target, iter=st.iter, body=strip_logs(st.body) or [ast.Pass()], orelse=st.orelse, lineno=st.lineno,
+                         type_comment=None)
+        out.append(st)
+    return out
+
+
+@register("GenMemStore")
+def gen_memstore():
+    tree = parse("dds/store.py")
+    cls = find_def(tree, "MemoryStore", (ast.ClassDef,))
+    check_methods(cls, ["__init__", "codec_registry"] + [m[0] for m in MEM_METHODS])
+    check_body(method(cls, "__init__"), ["self._cache: Dict[PyHash, Any] = {}", "self._paths: Dict[DDSPath, PyHash] = {}"], "MemoryStore.__init__")
+    state = "list (key * blob) * list (dpath * key)"
+    defs = []
+    for name, params, rty, ctor, _, _ in MEM_METHODS:
+        t = Target("gen_mem_" + name, "(st : " + state + ")", "(" + state + ") * sout", params, rty, "((b, ps), " + ctor + ")", MEM_RULES,
+                   prologue="let '(b, ps) := st in", raise_="((b, ps), RErr)", coq_types=MEM_TYPES,
+                   none_values={"blob": "BNone", "unit": "tt"})
+        m = method(cls, name)
+        m = ast.FunctionDef(name=m.name, args=m.args, body=strip_logs(m.body), decorator_list=m.decorator_list, returns=m.returns, lineno=m.lineno)
+        defs.append(translate(t, m, ["self"]))
+    dispatch = "Definition gen_mem_step (st : " + state + ") (o : sop) : (" + state + ") * sout :=\n  match o with\n"
+    for name, _, _, _, op, args in MEM_METHODS:
+        dispatch += f"  | {op} => gen_mem_{name} {args} st\n"
+    dispatch += "  end.\n"
+    body = GEN_HEADER + "From DDS Require Import Base.Bytes Base.PyRt L4_Eval.Store.\n\n"
+    body += "(* dds/store.py : MemoryStore.has_blob / fetch_blob / store_blob / sync_paths / fetch_paths, over the types of L4_Eval/Store.v\n"
+    body += "   (state: b = self._cache, ps = self._paths; DDSException |-> RErr).  Vocabulary:\n" + vocabulary_doc(MEM_RULES) + " *)\n\n"
+    body += MEM_PRELUDE + "\n" + "\n\n".join(defs) + "\n\n(* one constructor of sop per method of the Store interface *)\n" + dispatch
+    return body
